@@ -789,6 +789,38 @@ func checkArming(c *Ctx, e *e2, handler *ssa.Function, field *types.Var) {
 			}
 		}
 	}
+	// ... or hand parameter j to a function that does (an init whose body moved into a helper)
+	for changed := true; changed; {
+		changed = false
+		for _, fn := range p.Funcs {
+			eachInstr(fn, func(in ssa.Instruction) {
+				call, ok := in.(ssa.CallInstruction)
+				if !ok || call.Common().StaticCallee() == nil {
+					return
+				}
+				for _, a := range armers {
+					if a.fn != call.Common().StaticCallee() || a.idx >= len(call.Common().Args) {
+						continue
+					}
+					for j, prm := range fn.Params {
+						if resolveCell(strip(call.Common().Args[a.idx])) != ssa.Value(prm) {
+							continue
+						}
+						dup := false
+						for _, b := range armers {
+							if b.fn == fn && b.idx == j {
+								dup = true
+							}
+						}
+						if !dup {
+							armers = append(armers, armer{fn, j})
+							changed = true
+						}
+					}
+				}
+			})
+		}
+	}
 	// sibling operands: the other fields of the same reactor that the handler reads and that some function fills from a
 	// parameter (buffer, destination, all-flag, progress): wherever the callback is armed they must be armed as well
 	type sib struct {
@@ -836,6 +868,26 @@ func checkArming(c *Ctx, e *e2, handler *ssa.Function, field *types.Var) {
 						if _, isPrm := resolveCell(strip(st.Val)).(*ssa.Parameter); isPrm {
 							arm[fn] = true
 						}
+					}
+				}
+				for changed := true; changed; {
+					changed = false
+					for _, fn := range p.Funcs {
+						if arm[fn] {
+							continue
+						}
+						eachInstr(fn, func(in ssa.Instruction) {
+							call, ok := in.(ssa.CallInstruction)
+							if !ok || call.Common().StaticCallee() == nil || !arm[call.Common().StaticCallee()] || !isHelperOf(fn, call.Common().StaticCallee()) {
+								return
+							}
+							for _, a := range call.Common().Args {
+								if _, isPrm := resolveCell(strip(a)).(*ssa.Parameter); isPrm && !arm[fn] {
+									arm[fn] = true
+									changed = true
+								}
+							}
+						})
 					}
 				}
 				// the back-pointer to the owning object is set once by the constructor
